@@ -71,7 +71,7 @@ PROPS = {
         "modules": ["CambrianModel.Props.C09"],
         "theorems": ["Cambrian.Props.C09_fun", "Cambrian.Props.C09_causal", "Cambrian.Props.C09_noop", "Cambrian.Props.C09_noop_done",
                      "Cambrian.Props.C09_seeds_ids"],
-        "correspondences": ["twin", "ctl"],
+        "correspondences": ["twin", "ctl", "run"],
         "trusted": CTL_TRUST + ["the stream of random decisions (StdRng::seed_from_u64(0) threaded through crossover/mutation/meta adaptation) and FxHashMap iteration order are outside the model: decided by the twin-run correspondence and source lint L2"],
         "assumptions": ["partial: 'the real random stream is a function of the inputs' is a differential test (twin runs in-process and cross-process), not a theorem"],
     },
@@ -79,7 +79,7 @@ PROPS = {
         "modules": ["CambrianModel.Props.C17"],
         "theorems": ["Cambrian.Props.C17_sel_dist", "Cambrian.Props.C17_sel_sum", "Cambrian.Props.C17_sel_nonneg", "Cambrian.Props.C17_sel_mono",
                      "Cambrian.Props.C17_live_mut", "Cambrian.Props.C17_live_bool"],
-        "correspondences": ["dir", "ops"],
+        "correspondences": ["dir", "ops", "algo"],
         "trusted": OPS_TRUST + ["selection.rs is modelled exactly over Rat (selDist); tied to the code by K-sel (4e4 / 4e5 draws per case, 6-sigma band, pressures k/16)",
                                 "the benchmark battery (sphere 2/5/10-D at three scales, optimum on a bound, integer grid, one-max, map size, variant/enum choice; nc 1 and 4, two completion orders) is a deterministic regression run against the thresholds of Sel.goals: a test"],
         "assumptions": ["partial: the benchmark clause and the 'within a few attempts' / 'mixed offspring' clauses are experiments (64 attempts each)"],
@@ -139,7 +139,7 @@ PROPS = {
     "C12": {
         "modules": ["CambrianModel.Props.C12"],
         "theorems": ["Cambrian.Props.C12_prov", "Cambrian.Props.C12_single", "Cambrian.Props.C12_same", "Cambrian.Props.C12_keys_refine", "Cambrian.Props.C12_refine", "Cambrian.Props.C12_prov_alg", "Cambrian.Props.C12_same_alg"],
-        "correspondences": ["ops"],
+        "correspondences": ["ops", "algo"],
         "trusted": OPS_TRUST,
         "assumptions": ["float laws used: none", "parents conform to a well-formed spec"],
     },
@@ -147,7 +147,7 @@ PROPS = {
         "modules": ["CambrianModel.Props.C13"],
         "theorems": ["Cambrian.Props.C13_id", "Cambrian.Props.C13_step", "Cambrian.Props.C13_init_variant",
                      "Cambrian.Props.C13_init_optional", "Cambrian.Props.C13_refine", "Cambrian.Props.C13_id_alg", "Cambrian.Props.C13_step_alg", "Cambrian.Props.C13_key_fresh", "Cambrian.Props.C13_key_once", "Cambrian.Props.C13_key_form"],
-        "correspondences": ["ops"],
+        "correspondences": ["ops", "algo"],
         "trusted": OPS_TRUST,
         "assumptions": ["float laws used: none", "the input conforms to a well-formed spec",
                         "key freshness is the local fact 'not a key of the input map' (after fix aa67b39 the key manager registers the map's keys before allocating)"],
